@@ -45,6 +45,13 @@ BODIES = [  # (label, function body for ${...})
     ("alias-var", "var x = inputs; return x.a;"),
     ("alias-assign", "var x; x = inputs; return x.a;"),
     ("alias-chain", "var y = inputs; var z = y; return z.b;"),
+    # statement ORDER matters for stateful analyses: an access first, then an alias by assignment, then a read through it
+    ("access-then-alias-assign", "var n = {A}; var x; x = inputs; return x.b + n;"),
+    ("access-then-alias-of-alias", "var n = inputs.c.length; var x; var y; x = inputs; y = x; return y.a + n;"),
+    ("alias-assign-then-access", "var x; x = inputs; var n = {A}; return x.b + n;"),
+    ("two-aliases", "var x; var y; x = inputs; y = inputs; return x.a + y.b;"),
+    ("alias-reassigned-away", "var x; x = inputs; var r = x.a; x = {q: 1}; return r + x.q;"),
+    ("method-call-then-alias", "var r = []; r.push(1); var x; x = inputs; return x.t;"),
     ("alias-idx", "var x = inputs; return x['a'];"),
     ("sub-alias", "var x = inputs.d; return x.e;"),
     ("shadow-param", "function f(inputs) { return inputs.z; } return f({z: 1});"),
